@@ -44,7 +44,7 @@ Proof. exact start_outcome. Qed.
     moment it is started *)
 Theorem C09_retry_leaves_no_residue : forall ops, residue (exec rinit ops) = [].
 Proof. exact residue_empty_all. Qed.
-Theorem C09_retry_decorates_once : forall ops hs, hs_started hs = None ->
+Theorem C09_retry_decorates_once : forall ops hs, hs_started hs = None -> waiting (exec rinit ops) hs = true ->
   start_one (exec rinit ops) hs =
   HS (hs_cfg hs) (Some (ST (mws (exec rinit ops)) (pubdecs (exec rinit ops)) (subdecs (exec rinit ops)))).
 Proof. exact start_one_no_residue. Qed.
@@ -57,6 +57,33 @@ Theorem C09_retry_pinned_refuted :
   /\ map (fun p => c09_proj (snd p)) (deliver (exec rinit pinned_witness) d)
     = [[OSub 62 (CX 12 8 7 22 33); OFn; OPubDec 50; OPub]].
 Proof. exact retry_pinned_refuted. Qed.
+(** THE LINEARISATION POINT of a handler's start with respect to middleware registrations.  RunHandlers
+    returns before the new handler's goroutine copies r.middlewares ([OStartAsync]); the copy
+    ([OSnap n]: middlewares := append([]middleware{}, r.middlewares...) under middlewaresLock, the lock
+    Handler.AddMiddleware and — since the fix — Router.AddMiddleware take) is the point P:
+    a middleware registered before P of handler n's start is in n's chain (also when it was registered
+    after RunHandlers returned), one registered after P is not; the decorator lists are those of the
+    RunHandlers call.  [mid] and [post] are arbitrary programs (other starts, stops, failing attempts...). *)
+Theorem C09_snapshot_linearisation : forall mid st n h decs post,
+  pending_of st n = Some decs -> find_handler n st = Some (HS h None) ->
+  Forall (fun o => o <> OSnap n) mid -> Forall (fun o => o <> OStop n) post ->
+  find_handler n (exec st (mid ++ OSnap n :: post)) =
+  Some (HS h (Some (ST (mws st ++ regs_of mid) (fst decs) (snd decs)))).
+Proof. exact snapshot_linearisation. Qed.
+(** a RunHandlers in which no constructor fails leaves every waiting handler in that pending state *)
+Theorem C09_async_start_pending : forall st hs,
+  NoDup (names st) -> In hs (handlers st) -> waiting st hs = true ->
+  first_failing st (rev (pubdecs st)) = None -> first_failing st (subdecs st) = None ->
+  pending_of (step st OStartAsync) (hname hs) = Some (frozen_decs st hs)
+  /\ find_handler (hname hs) (step st OStartAsync) = Some hs
+  /\ mws (step st OStartAsync) = mws st.
+Proof. exact async_start_pending. Qed.
+(** the [OStart] of the sequential programs is the special case "the copy follows at once" *)
+Theorem C09_start_is_async_then_snap : forall st hs,
+  NoDup (names st) -> In hs (handlers st) -> waiting st hs = true ->
+  first_failing st (rev (pubdecs st)) = None -> first_failing st (subdecs st) = None ->
+  find_handler (hname hs) (step (step st OStartAsync) (OSnap (hname hs))) = find_handler (hname hs) (step st OStart).
+Proof. exact start_is_async_then_snap. Qed.
 Theorem C09_names_unique : forall ops, NoDup (names (exec rinit ops)).
 Proof. exact names_nodup_all. Qed.
 
@@ -119,6 +146,9 @@ Print Assumptions C09_registrations_never_removed.
 Print Assumptions C09_started_frozen.
 Print Assumptions C09_start_outcome.
 Print Assumptions C09_names_unique.
+Print Assumptions C09_snapshot_linearisation.
+Print Assumptions C09_async_start_pending.
+Print Assumptions C09_start_is_async_then_snap.
 Print Assumptions C09_retry_leaves_no_residue.
 Print Assumptions C09_retry_decorates_once.
 Print Assumptions C09_retry_pinned_refuted.
@@ -165,4 +195,15 @@ Example C09_witness_stop_and_readd :
                (DL 1 23 cx0 (0%N, false) (Ret []) PubAccept)) =
   [[OSub 60 (CX 10 ty_nil 7 23 0); OSub 61 (CX 10 ty_nil 7 23 0);
     OEnter 1; OEnter 2; OEnter 3; OEnter 5; OEnter 6; OEnter 7; OFn; OExit 7; OExit 6; OExit 5; OExit 3; OExit 2; OExit 1]].
+Proof. reflexivity. Qed.
+
+(** registrations in the window between RunHandlers' return and the goroutine's copy: router-level 8 and
+    A's own 9 are registered after the (asynchronous) start and before the copy: both in A's chain;
+    decorator 54 registered in the window is NOT applied (frozen by RunHandlers); 10 after the copy: not in. *)
+Example C09_witness_window :
+  map (fun p => c09_proj (snd p))
+      (deliver (exec rinit [OAddHandler exA; OAddMw 1 None; OAddPubDec 50 0; OStartAsync;
+                            OAddMw 8 None; OAddHMw 10 9 None; OAddPubDec 54 0; OSnap 10; OAddMw 10 None])
+               (DL 1 20 cx0 (0%N, false) (Ret [1%N]) PubAccept)) =
+  [[OEnter 1; OEnter 8; OEnter 9; OFn; OExit 9; OExit 8; OExit 1; OPubDec 50; OPub]].
 Proof. reflexivity. Qed.
